@@ -45,6 +45,12 @@ type entry struct {
 	run func(c *core.Case, e *entry, g *gen, doc bool)
 	// noDocs: no document-mutation cases for this entry.
 	noDocs bool
+	// rawXML: the type carries caller-supplied XML (more generations are run).
+	rawXML bool
+	// wholesale lists the top-level fields the type's hand-written decoder
+	// assigns unconditionally from a freshly decoded temporary (["*"]: the whole
+	// value): they are what the overwrite law judges.
+	wholesale []string
 	// reader caches hasReader (0 unknown, 1 yes, 2 no).
 	reader int
 }
@@ -222,6 +228,9 @@ func runValue(c *core.Case, e *entry, g *gen) {
 	if g.outOfRange > 0 {
 		c.Count("enum_out_of_range_values", g.outOfRange)
 	}
+	if g.subSecondDurations > 0 {
+		c.Count("durations_with_subsecond_part", g.subSecondDurations)
+	}
 	if g.secondOffsets > 0 {
 		c.Count("times_with_second_granular_offset", g.secondOffsets)
 	}
@@ -247,6 +256,7 @@ func runValue(c *core.Case, e *entry, g *gen) {
 	}
 	smp.Encodings["other value (decoded first into the reused target)"] = qb(other)
 	reuseCheck(c, e, "UnmarshalXML(encoding)", true, other, enc)
+	overwriteLaw(c, e, other, enc)
 }
 
 // checkValue returns the first well-formed encoding and whether the value
@@ -430,37 +440,59 @@ func checkValue(c *core.Case, e *entry, v any, why string, smp *valueSample) (fi
 			violate(c, "codec:R:"+typ+":"+d.Field, "decode(encode(v)) differs from the canonical value v: %s\nencoded (%s): %s", d.Detail, good[0].Form, qb(good[0].B))
 		}
 	}
-	// F
+	// F, over several generations: encode -> decode -> encode -> decode ...
+	// Every generation after the first must be a fixed point, and everything
+	// written on the way must be well-formed (a defect that adds material on
+	// every cycle only breaks well-formedness from the second generation on).
 	c.Count("law_F_checked", 1)
-	var encs2 []encoded
-	var p bool
-	encs2, p = encodeAll(c, typ, v1)
-	if p {
-		return
+	gens := 3
+	if e.rawXML {
+		gens = 5
 	}
-	var b2 *encoded
-	for i := range encs2 {
-		if encs2[i].Form == good[0].Form {
-			b2 = &encs2[i]
+	cur, curEnc := v1, good[0].B
+	var v2 any
+	for gen := 2; gen <= gens; gen++ {
+		encsN, p := encodeAll(c, typ, cur)
+		if p {
+			return
 		}
-	}
-	if b2 == nil {
-		return
-	}
-	if b2.Err != nil {
-		violate(c, "codec:F:"+typ+":re-encode-error", "a decoded %s value cannot be encoded again with %s: %v\nfirst encoding: %s", typ, b2.Form, b2.Err, qb(good[0].B))
-		return
-	}
-	v2, err2, p := decode(c, e, "UnmarshalXML(re-encoded)", b2.B)
-	if p {
-		return
-	}
-	if err2 != nil {
-		violate(c, "codec:F:"+typ+":re-decode-error", "the re-encoding of a decoded %s value is rejected: %v\nfirst: %s\nsecond: %s", typ, err2, qb(good[0].B), qb(b2.B))
-		return
-	}
-	if d, _ := e.compare(v1, v2, false); d != nil {
-		violate(c, "codec:F:"+typ+":"+d.Field, "decoded value is not a fixpoint: %s\nfirst: %s\nsecond: %s", d.Detail, qb(good[0].B), qb(b2.B))
+		var bN *encoded
+		for i := range encsN {
+			if encsN[i].Form == good[0].Form {
+				bN = &encsN[i]
+			}
+		}
+		if bN == nil {
+			return
+		}
+		if bN.Err != nil {
+			violate(c, "codec:F:"+typ+":re-encode-error", "a decoded %s value (generation %d) cannot be encoded again with %s: %v\nprevious encoding: %s", typ, gen-1, bN.Form, bN.Err, qb(curEnc))
+			return
+		}
+		c.Count("generations_checked", 1)
+		if len(bytes.TrimSpace(bN.B)) > 0 {
+			if _, err := xmltree.ParseOne(bN.B); err != nil {
+				violate(c, "codec:W:"+typ+":later-generation-"+wfCause(err), "generation %d (%s of a decoded value) does not parse strictly (%v): %s\ngeneration %d: %s", gen, bN.Form, err, qb(bN.B), gen-1, qb(curEnc))
+				return
+			}
+			if a := xmltree.DuplicateAttr(bN.B); a != "" {
+				violate(c, "codec:W:"+typ+":later-generation-duplicate-attribute", "generation %d (%s of a decoded value) has the attribute %s twice in one start tag: %s\ngeneration %d: %s", gen, bN.Form, a, qb(bN.B), gen-1, qb(curEnc))
+				return
+			}
+		}
+		next, errN, p := decode(c, e, "UnmarshalXML(re-encoded)", bN.B)
+		if p {
+			return
+		}
+		if errN != nil {
+			violate(c, "codec:F:"+typ+":re-decode-error", "generation %d of a %s value is rejected by the decoder: %v\ngeneration %d: %s\ngeneration %d: %s", gen, typ, errN, gen-1, qb(curEnc), gen, qb(bN.B))
+			return
+		}
+		if d, _ := e.compare(cur, next, false); d != nil {
+			violate(c, "codec:F:"+typ+":"+d.Field, "decoded value is not a fixpoint (generation %d vs %d): %s\ngeneration %d: %s\ngeneration %d: %s", gen-1, gen, d.Detail, gen-1, qb(curEnc), gen, qb(bN.B))
+			return
+		}
+		cur, curEnc, v2 = next, bN.B, next
 	}
 	// the decoded values are values of the type like any other (last use of v2)
 	exerciseDecoded(c, e, v2, "decoded own encoding")
